@@ -48,6 +48,9 @@ func runStartFailCase(c sfCase, bin, tmp string) map[string]interface{} {
 	switch c.Cause {
 	case "line":
 		raw, _, _, _ := concretize(hsCase{Line: c.Line, Cfg: c.Cfg, Variant: c.Var, Offers: "legacy"})
+		if c.Var%2 == 1 {
+			raw += "more plugin output on stdout\nand more\n"
+		}
 		pc.MockLine, pc.MockThen = raw, "idle"
 		out["raw"] = raw
 	case "silent":
